@@ -16,6 +16,10 @@ if [ -f $out/demo.sh ]; then
   chmod +x $out/demo.sh
   (cd $out && LBZIP2_SRC=$wt/src timeout 900 ./demo.sh $wt/_build/lbzip2 $wt/src > demo_changed.log 2>&1); demo_mut=$?
   (cd $out && LBZIP2_SRC=/repo/src timeout 900 ./demo.sh /repo/_build/lbzip2 /repo/src > demo_unchanged.log 2>&1); demo_base=$?
+  if [ "$demo_mut" = 2 ] && [ "$demo_base" = 2 ]; then   # demo takes the binary only
+    (cd $out && timeout 900 ./demo.sh $wt/_build/lbzip2 > demo_changed.log 2>&1); demo_mut=$?
+    (cd $out && timeout 900 ./demo.sh /repo/_build/lbzip2 > demo_unchanged.log 2>&1); demo_base=$?
+  fi
 fi
 echo "{\"id\":\"$id\",\"applied\":true,\"build_rc\":$brc,\"ctest\":\"$ct\",\"demo_rc_changed\":\"$demo_mut\",\"demo_rc_unchanged\":\"$demo_base\"}" > $out/confirm.json
 cat $out/confirm.json
